@@ -37,8 +37,8 @@ pub fn check(tier: Tier, seed: u64) -> PropReport {
     rep.push(e.name, o);
     if tier == Tier::Thorough && fuzz_enabled() {
         // engine Z: coverage-guided campaign over the same case type, judged by the same monitor
-        let o = fuzz_stage(&e, "C01", "pool_backing", 30_000, seed);
-        rep.push("fuzz:pool_backing", o);
+        let o = fuzz_stage(&e, "C01", "pool_history", 30_000, seed);
+        rep.push("fuzz:pool_history", o);
     }
     rep.floor("histories with a multi-hop route", cases / 10);
     rep.floor("histories with an odd single-asset deposit", cases / 10);
